@@ -2891,7 +2891,7 @@ else {
    free( data_chunk_table ) ;
    if( bytes_read < block_bytes ) {
       *error_return = INCOMPLETE_DATA ;
-      memset( data_pointer, 0, (size_t)(total_bytes - bytes_read) ) ;
+      memset( data_pointer, 0, (size_t)(block_bytes - bytes_read) ) ;
       } /* end if */
    } /* end else */
 
